@@ -5,7 +5,7 @@ import ast
 import itertools
 
 from ..astutil import dotted, is_const, is_none, norm, walk_body
-from ..finite import Evaluator, NeedAtom, discover_atoms, equivalent
+from ..finite import k_eq, k_is, k_none, Evaluator, NeedAtom, discover_atoms, equivalent
 from ..report import Checker
 from ..srcmodel import Func, Unsupported
 from ..templates import CODEGEN, FIELD, GENERATORS, Fragment, accessor_name, fragments
@@ -45,7 +45,7 @@ def r_presence(ck: Checker, rule: str = "R-PRESENCE") -> None:
                 continue
             child = f"self.{FIELD}"
             atoms = discover_atoms(guard)
-            ident = f"is(None,{child})"
+            ident = k_none(child)
             if atoms == [ident]:
                 n_rows, bad = equivalent(guard, lambda a: not a[ident], {ident: (True, False)})
                 if not bad:
